@@ -1,5 +1,5 @@
 """C06 -- session state carries over between requests exactly, never after it ended."""
-import os, re, struct
+import os, re, struct, zlib
 import vlib
 from vlib import hexs, unhex
 
@@ -10,11 +10,12 @@ META = dict(
               'theorems over all histories of an executable model of session_interface + sid/cookies/dual back-ends + abstract storage + cookie '
               'jars + virtual clock) + extracted-model correspondence on the real session_interface (cookie-jar adapter AND real HTTP front end) '
               'with interposed time() + independent token-level property oracle',
-    level_text=('Theorems in coq/C06/Props.v (54, all closed under the global context) over an executable model of session_interface::load/save '
+    level_text=('Theorems in coq/C06/Props.v (62, all closed under the global context) over an executable model of session_interface::load/save '
                 '(new-session rule, fixed/renew/browser policy with the IEEE-double 10 % window, cookie_age, session_age, '
                 'update_exposed(force, resend = new session or mode != fixed)), clear() resetting age/expiration/on_server to the configured '
                 'defaults, the packed entry codec, session_sid, session_cookies (symbolic MAC), session_dual, an abstract session_storage, '
-                'per-browser cookie jars and a virtual clock: codec round trip and totality; in every history every storage access uses a '
+                'per-browser cookie jars and a virtual clock: codec round trip and totality, save_data defined exactly on keys < 2^10 and values '
+                '< 2^21 bytes (a value of exactly 2 MiB is refused, not stored with a wrapped length); in every history every storage access uses a '
                 '32-hex id; clear kills the id, reset removes the old id and issues the next output of the random source, moving back to the '
                 'cookie leaves no server record; the IEEE-double test of the 10 % window is exactly the integer test 10*delta < timeout for '
                 'every int timeout; a request that takes an early return of save() changes nothing but browser-side cookie expiry; a live '
@@ -31,14 +32,17 @@ META = dict(
                 'foreign steps and own unchanged requests, r2), and the browser holds them as long as it holds '
                 'the session cookie, whatever other browsers / attackers do and across its own unchanged requests; every deletion cookie is '
                 'justified (a save that merely sends everything again deletes no hidden key that was never exposed). '
-                'The character test of valid_sid is regenerated from src/session_sid.cpp and proved equal to the model (256-point sweep). The '
+                'Tie to the source: the character test of valid_sid (src/session_sid.cpp) and the limit tests of packed::packed, the bit-field '
+                'widths of struct packed and the bounds tests of load_data (src/session_interface.cpp) are regenerated from the current source '
+                'on every run and proved equal to the model; the limit tests accept exactly the sizes the bit-fields can hold. The '
                 'model is tied to the code by running the extracted model and the real cppcms::session_interface - over a cookie-jar adapter '
                 'with the real memory / file / network storages behind a logging decorator, and as session_interface(http::context&) behind a '
                 'real in-process HTTP service - on the same multi-browser histories with attacker cookies, observing what is read, the '
                 'storage operations, the resulting jar and the deletion cookies emitted; an independent Python oracle evaluates the property '
                 'text on the implementation output alone.'),
     level_note=('Trusted: Coq kernel + vm_compute; ExtrOcamlBasic extraction; the hand model (tied by correspondence; the only '
-                'source-generated leaf is the sid character test); symbolic MAC (an attacker string never carries a valid MAC unless it is a '
+                'source-generated leafs are the sid character test and the limit / bounds tests and field widths of the entry codec; the regular-'
+                'expression cut of those expressions; the bit-field allocation order of the compiler); symbolic MAC (an attacker string never carries a valid MAC unless it is a '
                 'verbatim replay); the browser model (a cookie is sent until its max-age elapsed, session cookies for ever); storages are '
                 'observed through the session_storage interface only; hypotheses on the random source (pairwise distinct, the drawn id well '
                 'formed) are explicit premises. Not covered: CSRF token generation, the empty key, negative ages, keys _t/_h/_s set by the '
@@ -46,7 +50,56 @@ META = dict(
                 'save), concurrency between requests, gc jobs.'),
 )
 
-GEN = {}
+PACKED_TU = os.path.join(vlib.WORK, 'C06', 'C06_packed_leafs.cpp')
+PACKED_LEAFS = ['c06_keylong', 'c06_vallong', 'c06_key_field', 'c06_data_field', 'c06_word', 'c06_hdr', 'c06_fits', 'c06_more']
+GEN = {'Gen_C06packed': dict(src=PACKED_TU, incs=[], functions=[(n, 'g_' + n) for n in PACKED_LEAFS])}
+
+
+def packed_leafs():
+    """Tie of the entry codec to the source (src/session_interface.cpp): the two limit tests of packed::packed(ks,exp,ds), the
+    bit-field widths of struct packed and the bounds tests of load_data are cut from the CURRENT source text into a tiny TU of
+    loop-free functions which tools/cxx2v.py translates (coq/gen/Gen_C06packed.v).  coq/C06/Link.v proves that the limit tests refuse
+    exactly the sizes the bit-fields cannot represent and that all of it equals the model's codec (entry_fits, header, load_aux).
+    Returns an error text when the statements no longer have the shape the model was written for."""
+    try:
+        src = open(os.path.join(vlib.REPO, 'src', 'session_interface.cpp')).read()
+    except OSError as e:
+        return str(e)
+    src = re.sub(r'//[^\n]*', '', src)
+    src = ' '.join(re.sub(r'/\*.*?\*/', '', src, flags=re.S).split())
+    E = r'([^;{}]*?)'
+    m1 = re.search(r'struct packed ?\{ ?uint32_t key_size ?: ?(\d+) ?; ?uint32_t exposed ?: ?(\d+) ?; ?uint32_t data_size ?: ?(\d+) ?; ?packed\(\) ?\{ ?\}', src)
+    m2 = re.search(r'packed\(unsigned ks, ?bool exp, ?unsigned ds\) ?\{ ?if ?\(' + E + r'\) ?throw cppcms_error\("session::save key too long"\); ?'
+                   r'if ?\(' + E + r'\) ?throw cppcms_error\("session::save value too long"\); ?key_size ?= ?ks; ?exposed ?= ?exp ?\? ?1 ?: ?0; ?data_size ?= ?ds; ?\}', src)
+    m3 = re.search(r'packed\(char const \*start, ?char const \*end\) ?\{ ?if ?\(' + E + r'\) ?\{ ?memcpy\(this, ?start, ?4\); ?\} ?else throw cppcms_error', src)
+    m4 = re.search(r'while ?\(' + E + r'\) ?\{ ?packed p\(begin, ?end\); ?begin ?\+= ?sizeof\(p\); ?if ?\(' + E + r'\) ?\{ ?std::string key\(begin, ?begin ?\+ ?p\.key_size\); ?'
+                   r'begin ?\+= ?p\.key_size; ?std::string val\(begin, ?begin ?\+ ?p\.data_size\); ?begin ?\+= ?p\.data_size;', src)
+    m5 = re.search(r'packed header\(p->first\.size\(\), ?p->second\.exposed, ?p->second\.value\.size\(\)\);', src)
+    if not (m1 and m2 and m3 and m4 and m5):
+        return ('session_interface.cpp: struct packed / save_data / load_data no longer have the statement structure the model was written for (%s)'
+                % ','.join(n for n, m in (('bit-fields', m1), ('limit tests', m2), ('header test', m3), ('load loop', m4), ('save_data header', m5)) if not m))
+    kb, eb, db = int(m1.group(1)), int(m1.group(2)), int(m1.group(3))
+    fits = m4.group(2).replace('p.key_size', 'key_size').replace('p.data_size', 'data_size')
+    for g in (m2.group(1), m2.group(2), m3.group(1), m4.group(1), fits):
+        if re.search(r'[^\w\s<>=!+\-*()]', g) or re.search(r'\b(?!ks\b|ds\b|start\b|end\b|begin\b|key_size\b|data_size\b|int\b)[A-Za-z_]\w*', g):
+            return 'session_interface.cpp: expression outside the translatable subset: ' + g
+    tu = '\n'.join([
+        '// GENERATED by checks/C06.py from src/session_interface.cpp (expressions copied verbatim; pointers become byte offsets of type long;',
+        '// bit-field operands are passed as unsigned; *_field = what an assignment to a bit-field of the declared width stores)',
+        '#include <stddef.h>', '#include <stdint.h>',
+        'bool c06_keylong(unsigned ks) { return %s; }' % m2.group(1),
+        'bool c06_vallong(unsigned ds) { return %s; }' % m2.group(2),
+        'uint32_t c06_key_field(uint32_t ks) { return ks & ((1u << %d) - 1); }' % kb,
+        'uint32_t c06_data_field(uint32_t ds) { return ds & ((1u << %d) - 1); }' % db,
+        '// little-endian bit-field allocation of struct packed with the widths declared in the source: %d, %d, %d' % (kb, eb, db),
+        'uint32_t c06_word(uint32_t ks, uint32_t ex, uint32_t ds) { return (ks & ((1u << %d) - 1)) | ((ex & ((1u << %d) - 1)) << %d) | ((ds & ((1u << %d) - 1)) << %d); }'
+        % (kb, eb, kb, db, kb + eb),
+        'bool c06_hdr(long start, long end) { return %s; }' % m3.group(1),
+        'bool c06_fits(long begin, long end, unsigned key_size, unsigned data_size) { return %s; }' % fits,
+        'bool c06_more(long begin, long end) { return %s; }' % m4.group(1), ''])
+    os.makedirs(os.path.dirname(PACKED_TU), exist_ok=True)
+    vlib.write_if_changed(PACKED_TU, tu)
+    return None
 
 
 def gen_sid_leaf(ctx):
@@ -104,6 +157,21 @@ def py_load(blob):
     return d
 
 
+# pattern content for the cases at the codec bounds: the first n bytes of a 64-byte unit repeated; the unit is a well-formed sequence
+# of three packed entries (role=admin, uid=0 exposed, p=filler), so a length field that wraps makes load_data read forged keys
+PATTERN_UNIT = bytes([4, 40, 0, 0]) + b'roleadmin' + bytes([3, 12, 0, 0]) + b'uid0' + bytes([1, 48, 1, 0]) + b'p' + b'.' * 38
+assert len(PATTERN_UNIT) == 64
+
+
+def pattern(n):
+    return (PATTERN_UNIT * (n // 64 + 1))[:n]
+
+
+def dig(v):
+    """rendering of byte strings in the harness / model output: hex, or ~<length>~<crc32> above 4096 bytes"""
+    return hexs(v) if len(v) <= 4096 else '~%d~%d' % (len(v), zlib.crc32(v) & 0xffffffff)
+
+
 # ---------------------------------------------------------------------------------------------------
 # generators
 # ---------------------------------------------------------------------------------------------------
@@ -144,6 +212,9 @@ def gen_script(rng, cfg, est, safe=False):
             if 0 <= want < 5000:
                 v = rbytes(rng, want)
                 ops.append('s:%s:%s' % (hexs(k), hexs(v)))
+        elif r < 0.37 and not safe:
+            # a key at the bound of the 10-bit key_size field (pattern content)
+            ops.append('gk:%d:%s' % (rng.choice([1022, 1023, 1024, 1025]), hexs(gen_value(rng))))
         elif r < 0.44:
             ops.append('e:' + hexs(k))
         elif r < 0.50:
@@ -337,6 +408,24 @@ def exhaustive_scripts(ctx):
     return out
 
 
+def bound_cases(exps='R'):
+    """the bounds of the entry codec (bit-fields key_size : 10, data_size : 21 of struct packed) through the real session_interface with
+    every storage and location: values of 2^21-1 (must round-trip), 2^21 and 2^21+1 bytes (save must refuse, the session of the previous
+    request stays intact), keys of 1023 / 1024 / 1025 bytes, both at their maximum together; pattern content (see pattern()): if a length
+    wrapped, the next request would read the forged keys role / uid / p instead of raising"""
+    out = []
+    V = 1 << 21
+    for exp in exps:
+        for loc, stor in [('S', 'M'), ('S', 'F'), ('S', 'N'), ('B', 'M'), ('B', 'F'), ('B', 'N'), ('C', 'M')]:
+            head = 'hist loc=%s stor=%s exp=%s to=100 lim=64 | R 0 s:61:31 x:61 s:7a7a:39 | ' % (loc, stor, exp)
+            for n in (V - 1, V, V + 1):
+                out.append(head + 'R 0 g:62:%d | R 0 | R 0 e:62 s:63:32 | R 0' % n)
+            for n in (1023, 1024, 1025):
+                out.append(head + 'R 0 gk:%d:76 | R 0 | R 0 s:63:32 | R 0' % n)
+            out.append(head + 'R 0 gg:1023:%d | R 0 | R 0 gg:1024:5 | R 0 | R 0 gg:5:%d | R 0 | T 50 | R 0' % (V - 1, V))
+    return out
+
+
 def gen_cases(ctx):
     rng = ctx.rng
     cases = directed_cases() + exhaustive_scripts(ctx)
@@ -354,6 +443,11 @@ def gen_cases(ctx):
     # long keys / values at the codec limits (1023 / 1024 byte key)
     for kl in (1022, 1023, 1024):
         cases.append('hist loc=S stor=M exp=R to=100 lim=64 | R 0 s:%s:31 | R 0 | R 0 s:61:32 | R 0' % ('6b' * kl))
+    # the codec bounds (2 MiB values): spread evenly over the list, the runner splits it into contiguous chunks per worker
+    bc = bound_cases('FRB' if ctx.scale(0, 1) else 'R')
+    step = max(1, len(cases) // len(bc))
+    for i, c in enumerate(bc):
+        cases.insert(i * (step + 1), c)
     return cases
 
 
@@ -376,6 +470,8 @@ def http_safe(case):
         if st[0] == 'R':
             for o in st[2:]:
                 a = o.split(':')
+                if a[0] in ('g', 'gk', 'gg'):
+                    return False
                 if a[0] in ('s', 'e', 'x', 'h') and a[1] not in safe:
                     return False
                 if a[0] == 'o' and a[1] == '1' and cfg['loc'] == 'C':
@@ -411,7 +507,7 @@ def parse_data(s):
     if s:
         for it in s.split(','):
             k, e, v = it.split(':')
-            d[unhex(k)] = (unhex(v), e == '1')
+            d[unhex(k)] = (v if v.startswith('~') else unhex(v), e == '1')
     return d
 
 
@@ -455,9 +551,10 @@ def apply_ops(data, ops, st):
     for o in ops:
         a = o.split(':')
         op = a[0]
-        if op == 's':
-            k = unhex(a[1])
-            data[k] = (unhex(a[2]), data.get(k, (b'', False))[1])
+        if op in ('s', 'g', 'gk', 'gg'):
+            k = pattern(int(a[1])) if op in ('gk', 'gg') else unhex(a[1])
+            v = pattern(int(a[2])) if op in ('g', 'gg') else unhex(a[2])
+            data[k] = (v, data.get(k, (b'', False))[1])
         elif op == 'e':
             data.pop(unhex(a[1]), None)
         elif op == 'c':
@@ -599,7 +696,7 @@ def oracle_(case, out):
             return ('bad-output', rs[:200])
         got = parse_data(dtxt)
         exp_data = dict(tok['data']) if alive_tok else {}
-        if got != exp_data:
+        if got != {k: (v[0] if len(v[0]) <= 4096 else dig(v[0]), v[1]) for k, v in exp_data.items()}:
             if not exp_data:
                 key = 'ended-session-readable' if tok is not None else 'foreign-or-phantom-data-read'
                 return (key, 'request of browser %d read %r but its session is %s' % (b, got, 'cleared/expired/reset' if tok is not None else 'unknown to the server'))
@@ -683,7 +780,14 @@ def oracle_(case, out):
             continue
         if toolong:
             if exc != 'cppcms':
-                return ('oversized-entry-accepted', 'a key >= 1024 bytes or value >= 2 MiB was not rejected')
+                return ('oversized-entry-accepted', 'a key >= 1024 bytes (2^10) or a value >= 2097152 bytes (2^21) was not refused by save(): the '
+                        'bit-fields key_size : 10 / data_size : 21 cannot hold the length, the stored length wraps and the next load_data reads '
+                        'the bytes of the entry as further entries (forged keys) or throws on every later request')
+            # nothing may have been written; a removal / a cleared cookie can only come from load() dropping a dead or forged session
+            if any(o.split(':')[0] == 'S' or (alive_tok and o.split(':')[0] == 'D') for o in ops_l):
+                return ('refused-save-touched-storage', 'save() refused an oversized entry but storage was written / removed: ' + ops_txt[:160])
+            if new_sess != sess and (alive_tok or new_sess is not None) and presented != 'raw:mutated':
+                return ('refused-save-changed-cookie', 'save() refused an oversized entry but the session cookie changed from %r to %r' % (sess, new_sess))
             jars[b] = (new_sess, new_xs)
             continue
         if loc == 'C' and stt['srv']:
@@ -731,7 +835,7 @@ def oracle_(case, out):
             _, cdl, cblob = val.split(':')
             if int(cdl) != deadline:
                 return ('client-cookie-deadline-wrong', 'cookie deadline %s, expected %d' % (cdl, deadline))
-            if py_load(unhex(cblob)) != data:
+            if (cblob != dig(py_save(data))) if cblob.startswith('~') else (py_load(unhex(cblob)) != data):
                 return ('client-cookie-content-wrong', 'cookie payload does not decode to the session data')
             # moving back to the cookie: no server record may be left behind
             if old_server_id is not None and not presented.startswith('C'):
@@ -805,7 +909,13 @@ def classify(case, out):
 
 
 def run(ctx):
+    e = packed_leafs()
+    if e:
+        os.makedirs(os.path.dirname(PACKED_TU), exist_ok=True)
+        vlib.write_if_changed(PACKED_TU, '// ' + e.replace('\n', ' ') + '\n#error leaf extraction failed\n')
     errs = vlib.gen_coq(GEN)
+    if e:
+        errs.append(('Gen_C06packed', e))
     e = gen_sid_leaf(ctx)
     if e:
         errs.append(('Gen_sid', e))
@@ -842,10 +952,12 @@ def run(ctx):
                             'deletion cookies + storage log + loadable ids), attacker cookie (literal malformed/path-like/unissued ids, verbatim or mutated replays '
                             'of emitted cookies), planted exposed cookie, planted (possibly corrupt) storage record. Directed cases cover the 10 % '
                             'window +-1 s, deadline = now +-1, limit +-1, reset after moving server-side, clear of a client-only session, replay '
-                            'of an old id, clear() after / before each setting, exposed values across saves / renewals / mode switches / reset. Exhaustive '
+                            'of an old id, the bounds of the entry codec (values of 2^21-1 / 2^21 / 2^21+1 bytes, keys of 1023 / 1024 / 1025 bytes, '
+                            'pattern content that parses as entries, every storage and location), clear() after / before each setting, exposed values across saves / renewals / mode switches / reset. Exhaustive '
                             'small domain: every script of <= 2 operations out of 18 (343 scripts) as the second request on a session with '
                             'non-default settings and an exposed value, x 3 locations x 3 expiration modes. A case is non-trivial when at least one request read back a non-empty session; distinct = distinct lines.')
     ctx.coverage['exhaustive'] = False
+    os.environ.setdefault('OCAMLRUNPARAM', 's=32M')      # the extracted model recurses 2^21 deep on the bound cases: few minor collections
     try:
         vlib.differential(ctx, cases, exe, mexe, oracle, nontrivial, classify, impl_env={'C06_TMP': tmp},
                           jobs=8)
@@ -855,8 +967,9 @@ def run(ctx):
             ctx.broke('http harness build failed', err)
         else:
             hcases = gen_http_cases(ctx) if ctx.replay_cases is None else [c for c in cases if http_safe(c)]
-            vlib.differential(ctx, hcases, hexe, mexe, oracle, nontrivial, lambda c, o: 'http ' + classify(c, o),
-                              impl_env={'C06_TMP': tmp}, what='correspondence model vs implementation (http::context path)', jobs=6)
+            if hcases:
+                vlib.differential(ctx, hcases, hexe, mexe, oracle, nontrivial, lambda c, o: 'http ' + classify(c, o),
+                                  impl_env={'C06_TMP': tmp}, what='correspondence model vs implementation (http::context path)', jobs=6)
     finally:
         import shutil
         shutil.rmtree(tmp, ignore_errors=True)
